@@ -385,6 +385,12 @@ impl ModuleManager {
             imports.remove(name);
         }
 
+        // ... and the import declarations of the remaining modules that name the deleted
+        // module: they are the other record of the same edges (visibility reads them).
+        for module in self.modules.values_mut() {
+            module.imports.retain(|import| import.from_module != name);
+        }
+
         Ok(())
     }
 
